@@ -10,19 +10,84 @@ TUS = [('src/common/stream.cc', 'Pistache'), ('src/common/http.cc', 'Pistache')]
 
 PRELUDE = _s.PRELUDE + r'''
 #include "vs_http.h"
-int vs_exc_code;
+int vs_exc_code; long g_now; const char *g_buf_base; size_t g_buf_len, g_effects;
+int vs_nondet_method(void);
+struct vs_opaque vs_http_methods;   /* the constant method-name table (written only by static initialisation) */
+/* value parsers called by HeadersStep::apply with a (pointer,length) range of the receive buffer: CookieJar::addFromRaw,
+   Cookie::fromRaw, Header::parseRaw (virtual).  Assumed contract (DESIGN.md A.6): what they may rely on is exactly what the
+   call site must establish -- the range lies inside the buffer and a CR follows it there; they may throw. */
+extern const char *g_buf_base; extern size_t g_buf_len; extern size_t g_effects;
+#define EFF_RANGE_PRE(p, n) ((n) <= MAXLEN && __CPROVER_r_ok(p, (n) + 1) && (p)[n] == CR && __CPROVER_same_object(p, g_buf_base) \
+     && (size_t)__CPROVER_POINTER_OFFSET(p) + (n) < g_buf_len)
+void vs_eff_cookiejar_addFromRaw(struct vs_opaque *jar, const char *p, size_t n)
+__CPROVER_requires(EFF_RANGE_PRE(p, n))
+__CPROVER_assigns(g_effects, vs_exc, jar->o)
+__CPROVER_ensures(g_effects == OLD(g_effects) + 1);
+struct vs_opaque vs_eff_cookie_fromRaw(const char *p, size_t n)
+__CPROVER_requires(EFF_RANGE_PRE(p, n))
+__CPROVER_assigns(g_effects, vs_exc)
+__CPROVER_ensures(g_effects == OLD(g_effects) + 1);
+void vs_eff_header_parseRaw(struct vs_opaque *hdr, const char *p, size_t n)
+__CPROVER_requires(EFF_RANGE_PRE(p, n))
+__CPROVER_assigns(g_effects, vs_exc)
+__CPROVER_ensures(g_effects == OLD(g_effects) + 1);
 /* typed headers as far as the body step looks at them, and shared_ptr to them (null or pointing to one) */
 struct vs_hdr_cl { uint64_t value_; };
 struct vs_hdr_te { int encoding_; };
 struct vs_sp_cl { struct vs_hdr_cl *p; };
 struct vs_sp_te { struct vs_hdr_te *p; };
 /* Header::Collection::tryGet<H>(): assumed contract -- a null pointer or a pointer to the stored header; no effect on the parser */
-struct vs_sp_cl vs_headers_tryGet_cl(const struct vs_opaque *headers);
-struct vs_sp_te vs_headers_tryGet_te(const struct vs_opaque *headers); size_t vs_budget, g_app_total, g_app_calls; const char *g_app_src;
+extern bool g_has_cl, g_has_te; extern uint64_t g_cl_hdr;
+struct vs_sp_cl vs_headers_tryGet_cl(const struct vs_opaque *headers)
+__CPROVER_assigns()
+__CPROVER_ensures((RET.p != 0) == (g_has_cl != 0))
+__CPROVER_ensures(RET.p != 0 ==> (FRESH(RET.p, sizeof(*RET.p)) && RET.p->value_ == g_cl_hdr));
+struct vs_sp_te vs_headers_tryGet_te(const struct vs_opaque *headers)
+__CPROVER_assigns()
+__CPROVER_ensures((RET.p != 0) == (g_has_te != 0))
+__CPROVER_ensures(RET.p != 0 ==> FRESH(RET.p, sizeof(*RET.p))); size_t vs_budget, g_app_total, g_app_calls; const char *g_app_src;
 #define CHUNK_INV(c) ((c)->size == -1 || ((c)->size >= 0 && 0 <= (c)->alreadyAppendedChunkBytes && (c)->alreadyAppendedChunkBytes <= (c)->size))
 #define MSG(s)  ((s)->vs_base_Step.message)
 #define BODY(s) (MSG(s)->body_)
 #define BODYSTEP_PRE(s) (FRESH(s, sizeof(*(s))) && FRESH(MSG(s), sizeof(*MSG(s))) && PTR_EQ((s)->chunk.message, MSG(s)))
+/* ghost: the framing headers of the message being parsed (constant while it is parsed) */
+bool g_has_cl, g_has_te; uint64_t g_cl_hdr;
+#define BODYSTEP_INV(s) (g_has_cl ? (((s)->bytesRead == 0 || (s)->bytesRead < g_cl_hdr) && BODY(s).size == (s)->bytesRead) : (s)->bytesRead == 0)
+/* std::vector<char> with reallocating growth (trusted model, DESIGN.md A.3); g_i/g_old: ghost sample of one stored byte */
+struct Pistache_Http_Private_Step;
+struct vs_steps { struct Pistache_Http_Private_Step *s[3]; };   /* std::array<std::unique_ptr<Step>, 3> */
+struct vs_timepoint { long ticks; };
+/* std::chrono::steady_clock::now(): monotone (assumed), value otherwise unconstrained */
+extern long g_now;
+static inline struct vs_timepoint vs_steady_clock_now(void) { struct vs_timepoint t; long n; __CPROVER_assume(n >= g_now); g_now = n; t.ticks = n; return t; }
+struct vs_vec { char *data; size_t size; };
+/* data() of an empty vector: C++ allows nullptr + 0, C does not; an empty vector points at a zero-length area here */
+char vs_empty_storage[1];
+size_t g_i; char g_old;
+static inline size_t vs_vec_size(const struct vs_vec *v) { return v->size; }
+static inline char  *vs_vec_data(const struct vs_vec *v) { return v->data; }
+static inline void   vs_vec_clear(struct vs_vec *v) { v->size = 0; }
+static inline void   vs_vec_ctor(struct vs_vec *v) { v->data = 0; v->size = 0; }
+static inline void   vs_vec_swap(struct vs_vec *a, struct vs_vec *b) { struct vs_vec t = *a; *a = *b; *b = t; }
+/* std::copy(first, last, std::back_inserter(v)): appends [first,last); storage may move; old bytes kept, new bytes == source */
+void vs_copy_back_insert(const char *first, const char *last, struct vs_vec *v)
+__CPROVER_requires(FRESH(v, sizeof(*v)) && v->size <= MAXLEN && __CPROVER_same_object(first, last) && first <= last && (size_t)(last - first) <= MAXLEN)
+__CPROVER_requires(first == last || __CPROVER_r_ok(first, (size_t)(last - first)))
+__CPROVER_requires(g_i < v->size ==> v->data[g_i] == g_old)
+__CPROVER_assigns(v->data, v->size)
+__CPROVER_ensures(v->size == OLD(v->size) + (size_t)(last - first) && FRESH(v->data, v->size))
+__CPROVER_ensures(g_i < OLD(v->size) ==> v->data[g_i] == g_old)
+__CPROVER_ensures((OLD(v->size) <= g_i && g_i < v->size) ==> v->data[g_i] == first[g_i - OLD(v->size)]);
+#define SB(a) ((a)->vs_base_StreamBuf)
+/* the get area covers the vector.  Directly after reset() the area is (nullptr, nullptr, nullptr) and the vector is empty:
+   that state is covered by a second proof of the same functions compiled with -DVS_AFTER_RESET (a pointer predicate
+   inside a disjunction is not usable with dfcc) */
+#ifndef VS_AFTER_RESET
+#define ASB_INV(a) ((a)->bytes.size <= MAXLEN && FRESH((a)->bytes.data, (a)->bytes.size) && PTR_EQ(SB(a).base, (a)->bytes.data) \
+     && SB(a).len == (a)->bytes.size && SB(a).pos <= SB(a).len)
+#else
+#define ASB_INV(a) ((a)->bytes.size == 0 && FRESH((a)->bytes.data, (a)->bytes.size) && SB(a).base == 0 && SB(a).len == 0 && SB(a).pos == 0)
+#endif
 #define STATE_AGAIN Pistache_Http_Private_State_Again
 #define STATE_NEXT  Pistache_Http_Private_State_Next
 #define STATE_DONE  Pistache_Http_Private_State_Done
@@ -37,6 +102,14 @@ TYPES.update({
     'std::shared_ptr<Pistache::Http::Header::TransferEncoding>': 'struct vs_sp_te',
     'std::shared_ptr<Header::ContentLength>': 'struct vs_sp_cl', 'std::shared_ptr<Header::TransferEncoding>': 'struct vs_sp_te',
     'Pistache::Http::Header::ContentLength': 'struct vs_hdr_cl', 'Pistache::Http::Header::TransferEncoding': 'struct vs_hdr_te',
+    'std::array<std::unique_ptr<Pistache::Http::Private::Step>, 3>': 'struct vs_steps',
+    'std::unique_ptr<Pistache::Http::Private::Step>': 'struct Pistache_Http_Private_Step *',
+    'std::chrono::steady_clock::time_point': 'struct vs_timepoint',
+    'std::array<std::unique_ptr<Pistache::Http::Private::Step>, 3>::value_type': 'struct Pistache_Http_Private_Step *',
+    'std::array<std::unique_ptr<Pistache::Http::Private::Step>, 3>::iterator': 'struct Pistache_Http_Private_Step **', 'std::array<std::unique_ptr<Pistache::Http::Private::Step>, 3>::value_type*': 'struct Pistache_Http_Private_Step **',
+    'std::unique_ptr<Pistache::Http::Private::Step>*': 'struct Pistache_Http_Private_Step **',
+    'std::chrono::time_point<std::chrono::steady_clock, std::chrono::duration<long, std::ratio<1, 1000000000>>>': 'struct vs_timepoint',
+    'std::vector<char>': 'struct vs_vec', 'Pistache::ArrayStreamBuf<char>::Base': 'struct vs_streambuf',
     'Pistache::Http::Version': 'int', 'Pistache::Http::Code': 'int', 'Pistache::Http::Method': 'int',
 })
 STUBS = dict(_s.STUBS)
@@ -51,15 +124,77 @@ STUBS.update({
     'Pistache::Http::Header::Collection::tryGet->std::shared_ptr<Pistache::Http::Header::TransferEncoding>': 'vs_headers_tryGet_te',
     'std::__shared_ptr<Pistache::Http::Header::ContentLength, __gnu_cxx::_S_atomic>::operator bool': {'expr': '(($this)->p != 0)'},
     'std::__shared_ptr<Pistache::Http::Header::TransferEncoding, __gnu_cxx::_S_atomic>::operator bool': {'expr': '(($this)->p != 0)'},
+    'std::vector<char>::size': 'vs_vec_size', 'std::vector<char>::data': 'vs_vec_data', 'std::vector<char>::clear': 'vs_vec_clear',
+    'std::vector<char>::swap': {'expr': 'vs_vec_swap($this, &($0))'},
+    'copy': 'vs_copy_back_insert', 'back_inserter': {'expr': '(&($0))'},
+    'ctor:std::vector<char>|void () noexcept': {'expr': '((struct vs_vec){vs_empty_storage, 0})'},
+    'std::array<std::unique_ptr<Pistache::Http::Private::Step>, 3>::begin': {'expr': '(($this)->s)'}, 'std::array<std::unique_ptr<Pistache::Http::Private::Step>, 3>::end': {'expr': '(($this)->s + 3)'},
+    'operator[]|std::array<std::unique_ptr<Pistache::Http::Private::Step>, 3>,unsigned long': 'vs_steps_at',
+    'std::unique_ptr<Pistache::Http::Private::Step>::get': {'expr': '(*($this))'},
+    'std::unique_ptr<Pistache::Http::Private::Step>::operator bool': {'expr': '(*($this) != 0)'},
+    'operator->|std::unique_ptr<Pistache::Http::Private::Step>': {'expr': '($0)'},
+    'operator=|std::chrono::time_point<std::chrono::steady_clock, std::chrono::duration<long, std::ratio<1, 1000000000>>>,std::chrono::time_point<std::chrono::steady_clock, std::chrono::duration<long, std::ratio<1, 1000000000>>>': {'expr': '(($0) = ($1))'},
+    'now': 'vs_steady_clock_now',
+    'ctor:std::string/2': 'vs_astr_ctor_ptr_n', 'ctor:std::string/1': 'vs_astr_ctor_cstr', 'ctor:std::string/0': {'expr': 'vs_astr_ctor_empty()'},
+    'operator=|std::string,std::string': 'vs_astr_assign', 'move': {'expr': '($0)'},
+    'strlen': {'expr': '(sizeof($0) - 1)', 'literal_only': True},
+    # the method table: find() yields an iterator modelled as an int (-1 = end()); which method is unconstrained
+    'field:std::__detail::_Node_const_iterator<std::pair<std::string, Pistache::Http::Method>, false, true>::value_type::second': 'vs_nondet_method()',
+    'Pistache::Http::CookieJar::addFromRaw': 'vs_eff_cookiejar_addFromRaw',
+    'Pistache::Http::Cookie::fromRaw': 'vs_eff_cookie_fromRaw',
+    'var:Pistache::Http::httpMethods': 'vs_http_methods',
     'std::exception::what': {'expr': '((const char *)0)'},
     'strtol': 'vs_strtol', 'isxdigit': 'vs_isxdigit', 'std::string::size': 'vs_astr_size',
 })
-THROWING = ['vs_astr_reserve', 'vs_astr_append_ptr_n', 'vs_astr_ctor_ptr_n']
-ALWAYS_REPLACE = _s.ALWAYS_REPLACE + ['vs_strtol']
-OPAQUE = ['Pistache::Http::CookieJar', 'Pistache::Http::Header::Collection', 'Pistache::Http::Uri::Query', 'Pistache::Address',
+NORMALISE = [(r'ParserImpl<Http::Request>', 'ParserImpl<Pistache::Http::Request>'),
+             (r'std::unique_ptr<Step>', 'std::unique_ptr<Pistache::Http::Private::Step>'),
+             (r'std::unique_ptr<Private::Step>', 'std::unique_ptr<Pistache::Http::Private::Step>'),
+             (r', StepsCount>', ', 3>')]
+DEFAULT_RULE = True
+# Pistache functions called by the head steps but not lowered in this unit: assumed contract = frame (only the objects passed
+# by non-const reference change) + may throw.  Idempotence of the insertions (first value wins) is the assumed half of C01-L2.
+ASSUME_PISTACHE = ['Pistache::Http::Uri::Query::add', 'Pistache::Http::CookieJar::removeAllCookies', 'Pistache::Http::CookieJar::add',
+                   'Pistache::Http::Header::LowercaseEqualStatic', 'Pistache::Http::Header::Registry::', 'Pistache::Http::Header::Collection::add',
+                   'Pistache::Http::Header::Collection::addRaw', 'ctor:Pistache::Http::Header::Raw', 'Pistache::Http::Header::Raw::']
+DEVIRT = {
+    ('Pistache_Http_Private_ParserBase_reset', 'reset'): 'vs_virtual_Step_reset',
+    ('Pistache_Http_Private_HeadersStep_apply', 'parseRaw'): 'vs_eff_header_parseRaw',
+    ('Pistache_Http_Private_ParserBase_parse', 'apply'): 'vs_virtual_Step_apply',
+}
+PRELUDE_AFTER_RECORDS = r'''
+static inline struct Pistache_Http_Private_Step **vs_steps_at(struct vs_steps *a, size_t i)
+{
+    __CPROVER_assert(i < 3, "std::array<unique_ptr<Step>,3>::operator[]: index below 3");
+    return &a->s[i];
+}
+/* Trusted model of virtual dispatch over the parser's fixed step table.  The ParserImpl constructors install
+   allSteps[0] = request-/response-line step, [1] = headers step, [2] = body step (ghost pointers name the concrete objects). */
+struct Pistache_Http_Private_BodyStep *g_body;
+struct Pistache_Http_Private_Step *g_line, *g_headers;
+void Pistache_Http_Private_Step_reset(struct Pistache_Http_Private_Step *this);
+void Pistache_Http_Private_BodyStep_reset(struct Pistache_Http_Private_BodyStep *this);
+int Pistache_Http_Private_BodyStep_apply(struct Pistache_Http_Private_BodyStep *this, struct Pistache_StreamCursor *cursor);
+int vs_line_step_apply(struct Pistache_Http_Private_Step *this, struct Pistache_StreamCursor *cursor);
+int vs_headers_step_apply(struct Pistache_Http_Private_Step *this, struct Pistache_StreamCursor *cursor);
+static inline void vs_virtual_Step_reset(struct Pistache_Http_Private_Step *s)
+{
+    if (s == &g_body->vs_base_Step) Pistache_Http_Private_BodyStep_reset(g_body);
+    else Pistache_Http_Private_Step_reset(s);
+}
+static inline int vs_virtual_Step_apply(struct Pistache_Http_Private_Step *s, struct Pistache_StreamCursor *cursor)
+{
+    if (s == &g_body->vs_base_Step) return Pistache_Http_Private_BodyStep_apply(g_body, cursor);
+    if (s == g_headers) return vs_headers_step_apply(s, cursor);
+    return vs_line_step_apply(s, cursor);
+}
+'''
+THROWING = ['vs_eff_cookiejar_addFromRaw', 'vs_eff_cookie_fromRaw', 'vs_eff_header_parseRaw', 'vs_virtual_Step_apply', 'vs_astr_reserve', 'vs_astr_append_ptr_n', 'vs_astr_ctor_ptr_n']
+ALWAYS_REPLACE = _s.ALWAYS_REPLACE + ['vs_eff_cookiejar_addFromRaw', 'vs_eff_cookie_fromRaw', 'vs_eff_header_parseRaw', 'vs_copy_back_insert', 'vs_strtol', 'vs_headers_tryGet_cl', 'vs_headers_tryGet_te']
+OPAQUE = ['Pistache::Http::Cookie', 'Pistache::Http::Header::Raw', 'Pistache::Http::Header::Registry', 'Pistache::Http::Header::Header', 'Pistache::Http::CookieJar', 'Pistache::Http::Header::Collection', 'Pistache::Http::Uri::Query', 'Pistache::Address',
           'std::chrono::milliseconds']
 OPAQUE_UNKNOWN = True
-RECORDS = _s.RECORDS + ['Pistache::Http::Message', 'Pistache::Http::Private::Step', 'Pistache::Http::Private::BodyStep::Chunk', 'Pistache::Http::Private::BodyStep']
+RECORDS = _s.RECORDS + ['Pistache::Http::Response', 'Pistache::Http::Private::RequestLineStep', 'Pistache::Http::Private::ResponseLineStep', 'Pistache::Http::Private::HeadersStep', 'Pistache::ArrayStreamBuf<char>', 'Pistache::Http::Request', 'Pistache::Http::Private::ParserBase',
+                        'Pistache::Http::Private::ParserImpl<Pistache::Http::Request>', 'Pistache::Http::Message', 'Pistache::Http::Private::Step', 'Pistache::Http::Private::BodyStep::Chunk', 'Pistache::Http::Private::BodyStep']
 EXCEPTIONS = {'std::runtime_error': 'VS_EXC_RUNTIME_ERROR', 'Pistache::Http::HttpError': 'VS_EXC_HTTP_ERROR'}
 CATCH_TEST = {'std::exception': 'VS_EXC_IS_STD($)', 'Pistache::Http::HttpError': '($) == VS_EXC_HTTP_ERROR'}
 
@@ -71,7 +206,63 @@ def THROW_PAYLOAD(L, t, ce):
 ENUMS = _s.ENUMS + ['Pistache::Http::Code', 'Pistache::Http::Header::Encoding', 'Pistache::Http::Private::State', 'Pistache::Http::Private::BodyStep::Chunk::Result']
 
 FUNCTIONS = list(_s.FUNCTIONS) + [
+    {'q': 'Pistache::ArrayStreamBuf::feed', 'contract': """
+        requires FRESH(this, sizeof(*this)) && ASB_INV(this) && len <= MAXLEN && FRESH(data, len)
+        requires g_i < this->bytes.size ==> this->bytes.data[g_i] == g_old
+        assigns SB(this).base, SB(this).pos, SB(this).len, this->bytes.data, this->bytes.size
+        # C14: accepted exactly when the cumulative size stays within the limit, however the bytes were split
+        ensures RET == (OLD(this->bytes.size) + len <= this->maxSize)
+        ensures SB(this).len == this->bytes.size && SB(this).pos == OLD(SB(this).pos)
+        ensures RET ==> SB(this).base == this->bytes.data
+        ensures !RET ==> SB(this).base == OLD(SB(this).base)
+        ensures RET ==> this->bytes.size == OLD(this->bytes.size) + len
+        ensures !RET ==> (this->bytes.size == OLD(this->bytes.size) && this->bytes.data == OLD(this->bytes.data))
+        # C01-L6: the bytes already buffered are kept, the new bytes are the data fed
+        ensures (RET && g_i < OLD(this->bytes.size)) ==> this->bytes.data[g_i] == g_old
+        ensures (RET && OLD(this->bytes.size) <= g_i && g_i < this->bytes.size) ==> this->bytes.data[g_i] == data[g_i - OLD(this->bytes.size)]"""},
+    {'q': 'Pistache::ArrayStreamBuf::reset', 'contract': """
+        requires FRESH(this, sizeof(*this)) && ASB_INV(this)
+        assigns SB(this).base, SB(this).pos, SB(this).len, this->bytes
+        ensures this->bytes.size == 0 && SB(this).pos == 0 && SB(this).len == 0 && SB(this).base == this->bytes.data"""},
+    {'q': 'Pistache::StreamCursor::Token::text'},
+    {'q': 'Pistache::Http::Private::RequestLineStep::apply'},
+    {'q': 'Pistache::Http::Private::ResponseLineStep::apply'},
+    {'q': 'Pistache::Http::Private::HeadersStep::apply', 'hoist_all': True,
+     # advance() refusals directly after a successful look-ahead (current() == ':' / ' ', eol()) are dead code
+     'dead_ok': ['return State::Again;'], 'contract': """
+        requires CUR_PRE(cursor) && FRESH(this, sizeof(*this)) && FRESH(MSG(this), sizeof(*MSG(this)))
+        requires vs_exc == 0 && !g_hit_end && PTR_EQ(g_buf_base, cursor->buf->base) && g_buf_len == LEN(cursor)
+        assigns POS(cursor), g_effects, vs_exc, g_hit_end, MSG(this)->cookies_.o, MSG(this)->headers_.o
+        ensures POS(cursor) <= LEN(cursor)
+        # L1 (Revert discipline): need-more-data and every error leave the cursor where the step started
+        ensures vs_exc != 0 ==> POS(cursor) == OLD(POS(cursor))
+        ensures (vs_exc == 0 && RET == STATE_AGAIN) ==> POS(cursor) == OLD(POS(cursor))
+        ensures (vs_exc == 0 && RET != STATE_AGAIN) ==> (RET == STATE_NEXT && POS(cursor) >= OLD(POS(cursor)) + 2)
+        # L7 (extension stability): a step that succeeds never observed the end of the buffer
+        ensures (vs_exc == 0 && RET == STATE_NEXT) ==> !g_hit_end
+        # the head ends with an empty line: CR LF sits directly before the new position
+        ensures (vs_exc == 0 && RET == STATE_NEXT) ==> (BYTE(cursor, POS(cursor) - 2) == CR && BYTE(cursor, POS(cursor) - 1) == LF)""",
+     'loops': ["""
+        assigns POS(cursor), g_effects, vs_exc, g_hit_end, MSG(this)->cookies_.o, MSG(this)->headers_.o, start, $HOISTED
+        invariant LOOP_ENTRY(POS(cursor)) <= POS(cursor) && POS(cursor) <= LEN(cursor) && vs_exc == 0
+        invariant g_hit_end ==> POS(cursor) + 1 >= LEN(cursor)
+        decreases LEN(cursor) - POS(cursor)""", """
+        assigns POS(cursor), g_hit_end
+        invariant start <= POS(cursor) && POS(cursor) <= LEN(cursor) && (g_hit_end ==> POS(cursor) + 1 >= LEN(cursor))
+        decreases LEN(cursor) - POS(cursor)""", """
+        assigns POS(cursor), g_hit_end
+        invariant start < POS(cursor) && POS(cursor) <= LEN(cursor) && (g_hit_end ==> POS(cursor) + 1 >= LEN(cursor))
+        decreases LEN(cursor) - POS(cursor)""", """
+        assigns POS(cursor), g_hit_end
+        invariant start <= POS(cursor) && POS(cursor) <= LEN(cursor) && (g_hit_end ==> POS(cursor) + 1 >= LEN(cursor))
+        decreases LEN(cursor) - POS(cursor)"""]},
     {'q': 'Pistache::Http::Private::Step::raise'},
+    {'q': 'Pistache::Http::Private::Step::reset'},
+    {'q': 'Pistache::Http::Private::BodyStep::reset'},
+    {'q': 'Pistache::Http::Private::ParserBase::reset'},
+    {'q': 'Pistache::Http::Private::ParserBase::feed'},
+    {'q': 'Pistache::Http::Private::ParserBase::parse'},
+    {'q': 'Pistache::Http::Private::ParserImpl::reset'},
     {'q': 'Pistache::Http::Private::BodyStep::Chunk::Chunk'},
     {'q': 'Pistache::Http::Private::BodyStep::Chunk::reset'},
     {'q': 'Pistache::Http::Private::BodyStep::parseContentLength', 'contract': """
@@ -80,7 +271,7 @@ FUNCTIONS = list(_s.FUNCTIONS) + [
         # representation invariant of the body step: what was counted is what was stored, and less than the declared length
         requires (this->bytesRead == 0 || this->bytesRead < cl->p->value_) && BODY(this).size == this->bytesRead && this->bytesRead <= MAXLEN
         assigns POS(cursor), this->bytesRead, BODY(this).size, vs_exc, g_app_total, g_app_calls, g_app_src, g_hit_end
-        ensures vs_exc == 0
+        ensures vs_exc == 0 && OLD(POS(cursor)) <= POS(cursor) && POS(cursor) <= LEN(cursor)
         ensures RET == STATE_AGAIN || RET == STATE_DONE
         # the bytes appended are exactly the bytes consumed, taken in place
         ensures POS(cursor) == OLD(POS(cursor)) + g_app_total && BODY(this).size == OLD(BODY(this).size) + g_app_total
@@ -91,6 +282,8 @@ FUNCTIONS = list(_s.FUNCTIONS) + [
         ensures RET == STATE_DONE ==> (BODY(this).size == cl->p->value_ && this->bytesRead == 0)"""},
     {'q': 'Pistache::Http::Private::BodyStep::parseContentLength::readBody', 'lambda': True},
     {'q': 'Pistache::Http::Private::BodyStep::parseTransferEncoding',
+     # the trailing `return State::Done;` follows an else-branch that always raises
+     'dead_ok': ['return State::Done;'],
      'ghost': [('Pistache_Http_Private_BodyStep_Chunk_parse', 'before', 'g_app_total = 0;')],
      'contract': """
         requires CUR_PRE(cursor) && BODYSTEP_PRE(this) && FRESH(te, sizeof(*te)) && FRESH(te->p, sizeof(*te->p))
@@ -111,7 +304,26 @@ FUNCTIONS = list(_s.FUNCTIONS) + [
                 vs_exc, g_app_total, g_app_calls, g_app_src, g_w, g_hit_end
         invariant vs_exc == 0 && CHUNK_INV(&this->chunk) && LOOP_ENTRY(POS(cursor)) <= POS(cursor) && POS(cursor) <= LEN(cursor) && BODY(this).size <= MAXLEN + POS(cursor)
         decreases LEN(cursor) - POS(cursor)"""]},
-    {'q': 'Pistache::Http::Private::BodyStep::apply'},
+    {'q': 'Pistache::Http::Private::BodyStep::apply', 'contract': """
+        requires CUR_PRE(cursor) && BODYSTEP_PRE(this) && vs_exc == 0 && g_app_total == 0 && g_app_calls == 0 && LEN(cursor) <= vs_budget
+        requires CHUNK_INV(&this->chunk) && BODY(this).size <= MAXLEN
+        # representation invariant across calls for one message: bytes counted == bytes stored < declared length (g_cl_hdr: the
+        # message's Content-Length header, constant while the message is parsed)
+        requires BODYSTEP_INV(this)
+        assigns POS(cursor), this->bytesRead, this->chunk.size, this->chunk.alreadyAppendedChunkBytes, this->chunk.bytesRead, BODY(this).size,
+                vs_exc, vs_exc_code, g_app_total, g_app_calls, g_app_src, g_w, g_hit_end
+        ensures POS(cursor) <= LEN(cursor) && OLD(POS(cursor)) <= POS(cursor)
+        ensures vs_exc == 0 || (vs_exc == VS_EXC_HTTP_ERROR && (vs_exc_code == Pistache_Http_Code_Bad_Request || vs_exc_code == Pistache_Http_Code_Not_Implemented))
+        ensures vs_exc == 0 ==> (RET == STATE_AGAIN || RET == STATE_DONE)
+        ensures vs_exc == 0 ==> CHUNK_INV(&this->chunk)
+        ensures (vs_exc == 0 && RET == STATE_AGAIN) ==> BODYSTEP_INV(this)
+        # a message without body framing is complete at once and consumes nothing
+        ensures (vs_exc == 0 && !g_has_cl && !g_has_te) ==> (RET == STATE_DONE && POS(cursor) == OLD(POS(cursor)))
+        # Content-Length framing: complete exactly when the declared number of bytes has been stored
+        ensures (vs_exc == 0 && g_has_cl && RET == STATE_DONE) ==> (BODY(this).size == g_cl_hdr && this->bytesRead == 0)
+        ensures (vs_exc == 0 && g_has_cl && RET == STATE_AGAIN) ==> (POS(cursor) == LEN(cursor) && BODY(this).size < g_cl_hdr)
+        ensures (vs_exc == 0 && g_has_cl) ==> (BODY(this).size - OLD(BODY(this).size) == POS(cursor) - OLD(POS(cursor)))
+        ensures g_has_cl && g_has_te ==> vs_exc != 0"""},
     {'q': 'Pistache::Http::Private::BodyStep::Chunk::parse',
      # `if (!cursor.advance(2)) return Incomplete;` directly after eol() held: the refusal branch is dead code
      'dead_ok': ['return Incomplete;'],
@@ -153,10 +365,24 @@ FUNCTIONS = list(_s.FUNCTIONS) + [
 ]
 ADV = 'Pistache_StreamCursor_advance'
 CHUNK = 'Pistache_Http_Private_BodyStep_Chunk_parse'
+PCL = 'Pistache_Http_Private_BodyStep_parseContentLength'
+PTE = 'Pistache_Http_Private_BodyStep_parseTransferEncoding'
 PROOFS = [
+    {'name': 'HeadersStep_apply', 'enforce': 'Pistache_Http_Private_HeadersStep_apply', 'replace': [ADV], 'loops': 'contracts',
+     'props': ['C01', 'C03'], 'cost': 100, 'timeout': 1500},
+    {'name': 'feed', 'enforce': 'Pistache_ArrayStreamBuf_feed', 'props': ['C01', 'C03', 'C14']},
+    {'name': 'feed_after_reset', 'enforce': 'Pistache_ArrayStreamBuf_feed', 'props': ['C04', 'C03', 'C14'], 'defs': ['-DVS_AFTER_RESET'],
+     'harness': 'void h_feed_after_reset(void) { struct Pistache_ArrayStreamBuf_char_ *a0; char *a1; size_t a2; Pistache_ArrayStreamBuf_feed(a0, a1, a2); }\n'},
+    {'name': 'ArrayStreamBuf_reset', 'enforce': 'Pistache_ArrayStreamBuf_reset', 'props': ['C04', 'C03']},
+    {'name': 'BodyStep_apply', 'enforce': 'Pistache_Http_Private_BodyStep_apply', 'replace': [PCL, PTE], 'props': ['C01', 'C03', 'C04'], 'cost': 3},
     {'name': 'parseContentLength', 'enforce': 'Pistache_Http_Private_BodyStep_parseContentLength', 'replace': [ADV], 'props': ['C01', 'C03', 'C04'], 'cost': 5},
     {'name': 'parseTransferEncoding', 'enforce': 'Pistache_Http_Private_BodyStep_parseTransferEncoding', 'replace': [CHUNK], 'loops': 'contracts',
      'props': ['C01', 'C03'], 'cost': 8},
     {'name': 'Chunk_parse', 'enforce': 'Pistache_Http_Private_BodyStep_Chunk_parse', 'replace': [ADV], 'loops': 'contracts',
      'props': ['C01', 'C03'], 'cost': 20},
 ]
+
+DEFAULT_EQ = {
+    'struct vs_astr': ('$.size = 0;', '$.size == 0'),
+    'struct vs_opaque': ('$.o = 0;', '$.o == 0'),
+}
